@@ -7,13 +7,24 @@ GROUPS = [
          replace=["hash_table_lookup", "jsgf_fullname_from_rule", "jsgf_add_link", "expand_rule"], allow_no_body=["*"], min_postconditions=2,
          bounded="right-hand sides of <= 2 atoms with symbolic 7-character names, rule stack of <= 1 rule"),
 ]
+NATIVE = [
+    dict(name="jsgf_language_enum", source="native/jsgf_language_enum.c", repo_sources="ALL_EXCEPT:", cflags=["-w", "-fsanitize=address"],
+         args={"quick": [], "thorough": ["thorough"]}, exhaustive=True,
+         bound="EVERY JSGF expression of nesting depth <= 2 over the atoms a, b, <NULL>, <x>, <VOID> and the constructors group, optional, star, plus, tag, sequence, alternative, "
+               "weighted alternative (two weight pairs) -- quick: every third pair for the binary constructors over two depth-1 operands (seq, alt only); thorough: all -- "
+               "through the real parser and compiler; accepted word sequences of length <= 4 compared with the denotation; arc probabilities leaving every state of the raw FSG sum to one; "
+               "fixed cases for tail / left / embedded recursion, undefined rules and a missing public rule"),
+]
 ASSUMPTIONS = [
     "expand_rule / expand_rhs (mutually recursive: DFCC rejects recursion) are summarised by an ASSUMED contract: returns -1 on failure, may leave rules on the stack",
     "the case under contract is 'the expansion failed' (verif_expand_ret == -1); fresh grammar object (no links from an earlier build)",
 ]
 HAND_LEMMAS = []
-NOT_COVERED = ["expand_rhs link emission (contract written: every link for a rule reference must enter the referenced rule's entry state; tier probe: one caller obligation fails for a reason not yet understood, 9 minutes per run)", "language equivalence of the compiler (sequences, alternatives, Kleene closures, optionals, tail recursion: seeded change C05_A)", "weight normalisation (seeded change C05_B)", "the generated scanner and parser", "which grammars make expand_rule fail (recursion and undefined-rule detection inside expand_rhs)"]
+NOT_COVERED = ["expand_rule / expand_rhs are NOT under contract (mutually recursive: DFCC rejects recursion; the link-emission contract in tier 'probe' has one caller obligation failing for a reason not understood): "
+               "language preservation, weight normalisation and the recursion / undefined-rule refusals are decided by the exhaustive native enumeration jsgf_language_enum (bounded stand-in, never counted as proved)",
+               "grammars outside the enumerated family: nesting deeper than 2, more than two words, imports, several public rules, weights on operands of unary operators, sequences longer than 4 words",
+               "the generated scanner and parser (exercised by the enumeration only through the family's texts)"]
 CLAIM = dict(
-    text="Only the refusal clause is decided: whenever the rule expansion reports failure, jsgf_build_fsg_internal returns NULL (no FSG is handed out) and leaves no rule on the rule stack; proved for arbitrary grammar/rule objects. That the compiled FSG accepts exactly the JSGF language, and that weights are normalised, is NOT decided by any contract here.",
-    note="refusal clause only (one genuine defect found and fixed there); expansion functions are recursive and only summarised by an assumed contract; language equivalence not covered",
-    technique="CBMC function contract (goto-instrument --dfcc), callee replaced by an assumed summary contract, case selection in the precondition")
+    text="Only the refusal clause is decided: whenever the rule expansion reports failure, jsgf_build_fsg_internal returns NULL (no FSG is handed out) and leaves no rule on the rule stack; proved for arbitrary grammar/rule objects. That the compiled FSG accepts exactly the JSGF language, and that weights are normalised, is NOT decided by any contract here. The language clause itself (the FSG accepts exactly the denoted word sequences; alternative weights become probabilities that sum to one per choice point; left / embedded recursion -- also when hidden in a group or optional -- undefined rules and a missing public rule are refused; tail recursion compiles correctly) is decided by an exhaustive native enumeration of about 17 000 grammars of nesting depth <= 2 against an independent denotational evaluator: a bounded stand-in, not a proof. It found one more genuine defect (recursion hidden in a group compiled into another language), repaired in /repo.",
+    note="refusal clause only (one genuine defect found and fixed there); expansion functions are recursive and only summarised by an assumed contract; language equivalence not covered; language / weights / recursion refusals by exhaustive native enumeration of small grammars (bounded, not proof); trusted there: the denotational reference evaluator and the max-plus FSG evaluator in native/jsgf_language_enum.c",
+    technique="CBMC function contract (goto-instrument --dfcc), callee replaced by an assumed summary contract, case selection in the precondition; exhaustive native enumeration of small JSGF grammars against a denotational reference as bounded stand-in for the recursive compiler")
